@@ -62,6 +62,7 @@ pub fn take_last_panic() -> Option<String> {
 /// Run `f`, turning a panic into Err(message @ location).
 pub fn catch<O>(f: impl FnOnce() -> O) -> Result<O, String> {
     take_last_panic();
+    let _mem = crate::mem::Guard::enter();
     match catch_unwind(AssertUnwindSafe(f)) {
         Ok(o) => Ok(o),
         Err(_) => Err(take_last_panic().unwrap_or_else(|| "<panic without message>".to_string())),
